@@ -12,7 +12,8 @@ rule = ("scripts start with 'r begin' and end with 'r end'; stream 1 (exhaustive
         "max x all raise/lower words up to length 4; per object kind (harness metatype, harness buffer, library heap buffer, "
         "library rawdata) every history of length <= 3 (thorough: length 4 for the plain preset pair 1/1, length 3 for all 25 preset pairs) over take/copy/drop/assign/assigno/ext (library heap buffers: also detach with a too small, a sufficient and a larger length) on 2 objects "
         "and 2 handles with counter presets 0, 1, 2, max-1, max; stream 2 (boundary): presets max-1/max/0 with assignment and "
-        "self-assignment; stream 3: random histories over 3 objects of mixed kinds and 3 handles.  non-trivial = a history in "
+        "self-assignment; stream 3: random histories over 3 objects of mixed kinds and 3 handles; part g: the library's unshareable metatypes "
+        "(geninfo, buffer metatype over a harness buffer with presets 1, 0, max): every history of length 3 over new/addref/take/wrap/clone/unref.  non-trivial = a history in "
         "which the code destroyed an object (callback log 'D' or finalised elements) or refused a reference, counted per distinct script")
 assumptions = [
     "destruction is judged on the callback log of harness-owned objects (metatype/buffer vtables that count addref/unref and "
@@ -335,9 +336,10 @@ class _GG:
     @staticmethod
     def scripts(tier, seed, scale=1):
         out = []
-        ops = ["g new info", "g new mbuf", "g addref 0", "g take 0", "g wrap 0", "g clone 0", "g clone 1", "g unref 0", "g unref 1",
-               "g take 1", "g addref 1", "g drop"]
-        for pre in ("1", "2", "0", "max-1", "max"):
+        ops = ["g new info", "g new mbuf", "g addref 0", "g take 0", "g wrap 0", "g clone 0", "g clone 1", "g unref 0", "g unref 1"]
+        if tier != "quick":
+            ops += ["g take 1", "g addref 1", "g drop"]
+        for pre in (("1", "0", "max") if tier == "quick" else ("1", "2", "0", "max-1", "max")):
             for first in ("g new mbuf", "g new info"):
                 for hist in itertools.product(ops, repeat=3 if tier == "quick" else 4):
                     out.append(("gg:%s:%s:%s" % (pre, first[6:], "|".join(x[2:] for x in hist)),
